@@ -45,9 +45,21 @@ def run(ctx):
         p3 = ("binding_block", [("switch", tircheck.DYN["int"], [(("int", 1), [("return", R[x])]), (("int", 2), [("return", R[y])])], (2, [("return", R[z])]))])
         ret3.append((len(pool.programs), (x, y, z)))
         pool.add([(p3, "returns3")])
+    # assignment after / inside a nested scope that re-declares the name with either keyword: `const` of the declaration in force forbids it, nothing else does
+    scope_kind = []
     if not ctx.replay:
+        for p, tag, accepted in tircheck.scope_kind_programs():
+            scope_kind.append((len(pool.programs), accepted))
+            pool.add([(p, tag)])
         pool.add_generated(6000 if ctx.tier == "thorough" else 800, mutate_every=2, mutate=0.08, max_depth=4)
     pool.run()
+    for i, accepted in scope_kind:
+        e = pool.expected[i]
+        if isinstance(e, list) and (e[0] == 1) != accepted:
+            ctx.violation("%s program is %s: %s" % ("an assignment to a const variable" if not accepted else "a well-typed", "accepted" if e[0] == 1 else "rejected (%s)" % [d["msg"] for d in pool.impl[i]["diags"]][:1],
+                                                    pool.sources[i]),
+                          {"case": {"program": pool.programs[i][0]}, "qml": pool.sources[i], "impl_output": {"accepted": e[0] == 1, "diags": [d["msg"] for d in pool.impl[i]["diags"]]},
+                           "oracle_output": "accepted" if accepted else "rejected: assignment to const", "theorem_or_correspondence": "S: let / const of the declaration in force"})
     acc = rej = 0
     for i, e in enumerate(pool.expected):
         if e is None:
